@@ -1,6 +1,6 @@
 (* the boolean premises of spec/WireHyps.v imply the premises of the wire-level theorems *)
 From PSA Require Import gen.GoFacts model.Bytes model.Dhcp model.Clients model.Ipdb model.IpdbCheck model.Server spec.WireHyps
-  proofs.ClientsProofs proofs.DhcpProofs proofs.ServerProofs proofs.WireProofs proofs.WireInv.
+  proofs.ClientsProofs proofs.DhcpProofs proofs.ServerProofs proofs.WireProofs proofs.WireInv proofs.WireLease proofs.WireSnap.
 From Coq Require Import ZifyN ZifyNat ZifyBool.
 Open Scope N_scope.
 
@@ -47,10 +47,58 @@ Qed.
 Lemma wf_rounds_sound h : forallb (fun r => wf_bytes (r_pkt r)) h = true -> Forall wf_round h.
 Proof. intros H. apply Forall_forall. intros r Hr. rewrite forallb_forall in H. exact (H r Hr). Qed.
 
+Lemma opts_for_cases c mac : opts_for c mac = c_default_opts c \/ exists k, In (k, opts_for c mac) (c_opts c).
+Proof.
+  unfold opts_for. destruct (assoc mac (c_opts c)) as [o|] eqn:E; [right; eapply assoc_in; eauto|left; reflexivity].
+Qed.
+
+Lemma h_cfg_lease_sound c : h_cfg_lease c = true -> cfg_lease_ok c.
+Proof.
+  unfold h_cfg_lease. intros H. apply andb_true_iff in H as [Hd Ha]. rewrite forallb_forall in Ha. intros mac.
+  destruct (opts_for_cases c mac) as [->|[k Hk]].
+  - unfold h_lease_opt in Hd. lia.
+  - specialize (Ha _ Hk). unfold h_lease_opt in Ha. cbn [snd] in Ha. lia.
+Qed.
+
+Lemma h_cfg_c07_sound c : h_cfg_c07 c = true -> cfg_c07_ok c.
+Proof.
+  unfold h_cfg_c07. intros H. apply andb_true_iff in H as [Hd Ha]. rewrite forallb_forall in Ha. intros mac.
+  assert (G : forall os, h_c07_opt c os = true -> o_lease (decode_options os) = Z.to_N (c_lease c / 1000000000) /\ o_mask (decode_options os) <> None).
+  { intros os Ho. unfold h_c07_opt in Ho. apply andb_true_iff in Ho as [A B]. apply N.eqb_eq in A. split; [exact A|].
+    destruct (o_mask (decode_options os)); [discriminate|discriminate B]. }
+  destruct (opts_for_cases c mac) as [->|[k Hk]]; [apply G; exact Hd|]. apply G. exact (Ha _ Hk).
+Qed.
+
+Lemma h_snap_times_sound h : forall now, h_snap_times now h = true -> snap_times now h.
+Proof.
+  induction h as [|r h IH]; intros now H; [exact I|]. cbn [h_snap_times] in H. rewrite !andb_true_iff in H.
+  destruct H as (((((A & B) & C) & D) & E) & F). change (h_round_end r) with (round_end r) in *.
+  repeat split; try lia; auto.
+  - eapply nodup_b_sound; [|exact E]. intros a b. apply N.eqb_eq.
+Qed.
+
+(* everything the wire-level theorems ask for *)
+Record wire_premises (c : scfg) (h : list round) : Prop := {
+  wp_wire : cfg_wire_ok c; wp_srv : cfg_srv_ok c; wp_lease : cfg_lease_ok c; wp_c07 : cfg_c07_ok c; wp_dur : durations_ok c;
+  wp_wf : Forall wf_round h; wp_seq : seq_times 0%Z h; wp_snap : snap_times 0%Z h }.
+
 Theorem wire_hyps_sound c h : wire_hyps c h = true ->
   cfg_wire_ok c /\ cfg_srv_ok c /\ Forall wf_round h /\ seq_times 0%Z h /\ (0 <= hold_ns <= c_lease c)%Z /\ (0 <= req_hold_ns <= c_lease c)%Z.
 Proof.
-  unfold wire_hyps. rewrite !andb_true_iff. intros ((((A & B) & C) & D) & E).
+  unfold wire_hyps. rewrite !andb_true_iff. intros (((((((A & B) & C) & D) & E) & _) & _) & _).
   split; [apply h_cfg_wire_sound; exact A|]. split; [apply h_cfg_srv_sound; exact B|]. split; [apply wf_rounds_sound; exact D|].
   split; [apply h_seq_times_sound; exact E|]. unfold h_durations in C. lia.
+Qed.
+
+Theorem wire_hyps_premises c h : wire_hyps c h = true -> wire_premises c h.
+Proof.
+  unfold wire_hyps. rewrite !andb_true_iff. intros (((((((A & B) & C) & D) & E) & F) & G) & H). constructor.
+  - apply h_cfg_wire_sound; exact A.
+  - apply h_cfg_srv_sound; exact B.
+  - apply h_cfg_lease_sound; exact F.
+  - apply h_cfg_c07_sound; exact H.
+  - unfold h_durations in C. unfold durations_ok. lia.
+  - apply wf_rounds_sound; exact D.
+  - apply h_seq_times_sound; exact E.
+  - apply h_snap_times_sound; exact G.
 Qed.
